@@ -240,6 +240,7 @@ def r5(chk, prog, m):
         changed = True
         instrs = list(f.instrs())
         iter_paths = set()
+        slot_taint = set()
         while changed:
             changed = False
             for i in instrs:
@@ -259,8 +260,16 @@ def r5(chk, prog, m):
                 elif i.op in ("bitcast", "getelementptr", "phi", "select") and any(o.kind == "reg" and o.v in taint for o in i.ops):
                     taint.add(i.res)
                     changed = True
-                elif i.op == "store" and i.ops[0].kind == "reg" and i.ops[0].v in taint:
-                    pass
+                if i.op == "load" and (i.type or "").endswith("*") and P.path(i.ops[0]) in slot_taint:
+                    taint.add(i.res)
+                    changed = True
+            # a local slot that is assigned a source pointer anywhere may hold it at any later read (flow-insensitive)
+            for i in instrs:
+                if i.op == "store" and i.ops[0].kind == "reg" and i.ops[0].v in taint and i.ops[1].kind == "reg":
+                    d = f.defs.get(i.ops[1].v)
+                    if d is not None and d.op == "alloca" and P.path(i.ops[1]) not in slot_taint:
+                        slot_taint.add(P.path(i.ops[1]))
+                        changed = True
             # the foreachC iterator struct is filled from the source's table
             for i in instrs:
                 if i.op == "store" and i.ops[0].kind == "reg":
